@@ -326,8 +326,13 @@ func childRecover(plan *crashkit.Plan) int {
 	for i := 0; i < start; i++ {
 		op := w.Ops[i]
 		if op.Kind == "blk" {
-			if have, _ := n.Chain.HaveBlock(&blocks[op.Block].Hash); !have {
-				doOp(n, blocks, op)
+			// ... and a delivery that was acknowledged after the last completed commit is repeated as well: the block
+			// may be stored while what the delivery did to the chain (connecting it, a reorganisation) was not durable
+			if have, _ := n.Chain.HaveBlock(&blocks[op.Block].Hash); !have || i >= w.RedoFrom {
+				err := doOp(n, blocks, op)
+				if have {
+					rec.Op("R %d blk %d (repeat, block known) err=%v", i, op.Block, err)
+				}
 			}
 		} else if (op.Kind == "inv" || op.Kind == "rec") && i >= w.RedoFrom {
 			// an invalidation / reconsideration is repeated only when its effects may have been lost: one acknowledged
